@@ -32,7 +32,35 @@ RULES = {
              'argument into the original one, consumed into the encoded '
              'length, the channel into the channel argument, and every path '
              'condition of the successful return into True',
+    'C01.C': 'constructor pass-through: every argument is stored unchanged '
+             'in the attribute of the same name for every value of its wire '
+             'type (None / empty may become the empty value of that type)',
 }
+
+
+def constructor_passthrough(chk, ctx, ci):
+    from .. import ctors
+    st_it = ctx.static()
+    site = '%s:%d' % (ci.module.relpath, ci.node.lineno)
+    slots = ctx.slots_of(ci)
+    ptypes = {}
+    for s in slots:
+        t = st_it.class_attr(ci, '_' + s)
+        ptypes[s] = ctors.PY_OF_WIRE.get(t, ('object',))[0]
+    r = ctors.passthrough(ctx, ci, ptypes)
+    if r is None:
+        chk.ob('C01.C', ci.short + '()', not slots,
+               'no constructor of its own and %d arguments' % len(slots),
+               site=site)
+        return
+    res, nparams, _raises = r
+    names = [nm for nm, _, _ in res]
+    chk.ob('C01.C', ci.short + ' parameters', names == list(slots),
+           'constructor parameters %r' % (names,),
+           detail={'expected': list(slots)}, site=site)
+    for nm, ok, text in res:
+        chk.ob('C01.C', '%s(%s)' % (ci.short, nm), ok,
+               'stores %s' % text, site=site)
 
 
 def analyse_class(chk, ctx, ci, axioms=None):
@@ -296,6 +324,7 @@ def run(chk, ctx):
             continue
         seen.add(ci.qualname)
         default_construction(chk, ctx, ci)
+        constructor_passthrough(chk, ctx, ci)
         analyse_class(chk, ctx, ci, axioms)
     # classes deriving from Frame that are not reachable through the mapping
     for ci in ctx.method_classes():
@@ -304,6 +333,7 @@ def run(chk, ctx):
                    'method class is not reachable through INDEX_MAPPING')
     chk.floor('C01.L', 64, 'classes', count=len(seen))
     chk.floor('C01.D', 64, 'constructors')
+    chk.floor('C01.C', 120, 'constructor arguments')
     used = set()
     st_it = ctx.static()
     for ci in classes:
